@@ -352,8 +352,8 @@ func (g *gen) action() map[string]any {
 	case "send_msg":
 		a["text"] = g.tplNonEmpty()
 		if g.r.Bool() {
-			a["quick_replies"] = g.tpls(0, 3)
-			g.translate(u, "quick_replies", func() []any { return g.tpls(0, 3) })
+			a["quick_replies"] = g.tpls(0, 3) // sometimes the empty list, as the editor writes it
+			g.translate(u, "quick_replies", func() []any { return g.tpls(1, 3) })
 		} else if g.r.Chance(1, 4) {
 			// no quick replies in the base language, some in a translation: used at run time all the same
 			g.translate(u, "quick_replies", func() []any { return g.tpls(1, 2) })
